@@ -170,7 +170,7 @@ class LeasePub:
 
 
 class Net:
-    def __init__(self, lenreq, frag_client=None, frag_server=None, lease=False):
+    def __init__(self, lenreq, frag_client=None, frag_server=None, lease=False, handler_factories=None):
         from rsocket.rsocket_server import RSocketServer
         from rsocket.rsocket_client import RSocketClient
         from rsocket.helpers import single_transport_provider
@@ -185,10 +185,13 @@ class Net:
         box = {}
         self.lease = LeasePub() if lease else None
 
+        hf = handler_factories or {}
+
         def mk():
-            box['s'] = RSocketServer(self.ts, handler_factory=self.apps['server'].handler_class(),
+            box['s'] = RSocketServer(self.ts, handler_factory=hf.get('server') or self.apps['server'].handler_class(),
                                      fragment_size_bytes=frag_server, lease_publisher=self.lease)
-            box['c'] = RSocketClient(single_transport_provider(self.tc), handler_factory=self.apps['client'].handler_class(),
+            box['c'] = RSocketClient(single_transport_provider(self.tc),
+                                     handler_factory=hf.get('client') or self.apps['client'].handler_class(),
                                      fragment_size_bytes=frag_client, keep_alive_period=timedelta(seconds=100000),
                                      max_lifetime_period=timedelta(seconds=500000), honor_lease=lease)
             asyncio.create_task(box['c'].connect())
